@@ -139,11 +139,21 @@ def run(chk) -> None:
     gt = msq.functions.get("SqliteWorkflowStore.get_ticks")
     if gt is None:
         raise AnchorError("C13.R2: SqliteWorkflowStore.get_ticks not found")
-    sqls = [c.value for c in ast.walk(gt) if isinstance(c, ast.Constant) and isinstance(c.value, str) and "SELECT" in c.value.upper() and "ticks" in c.value]
+    def _sql_texts(fnx, mod_) -> list[str]:
+        """SQL string constants a store method uses: literal in the method, or a module-level constant it names."""
+        out_ = [c.value for c in ast.walk(fnx) if isinstance(c, ast.Constant) and isinstance(c.value, str)]
+        names_ = {x.id for x in ast.walk(fnx) if isinstance(x, ast.Name)}
+        for st_ in mod_.tree.body:
+            tg_ = st_.targets[0] if isinstance(st_, ast.Assign) and len(st_.targets) == 1 else (st_.target if isinstance(st_, ast.AnnAssign) else None)
+            if isinstance(tg_, ast.Name) and tg_.id in names_ and getattr(st_, "value", None) is not None:
+                out_ += [c.value for c in ast.walk(st_.value) if isinstance(c, ast.Constant) and isinstance(c.value, str)]
+        return out_
+
+    sqls = [q for q in _sql_texts(gt, msq) if "SELECT" in q.upper() and "ticks" in q]
     ok = bool(sqls) and all("ORDER BY SEQUENCE" in " ".join(q.upper().split()) and "DESC" not in q.upper() for q in sqls)
     chk.ob("C13.R2", "SQLite returns a run's ticks ordered by sequence (ascending)", ok, m=msq, node=gt, fn=gt, instance="tick-order:sqlite", reason=f"queries: {sqls}")
     at = msq.functions.get("SqliteWorkflowStore.append_tick")
-    ins = [c.value for c in ast.walk(at) if isinstance(c, ast.Constant) and isinstance(c.value, str) and "INSERT" in c.value.upper()] if at is not None else []
+    ins = [q for q in _sql_texts(at, msq) if "INSERT" in q.upper()] if at is not None else []
     ok = bool(ins) and all("MAX(SEQUENCE)" in "".join(q.upper().split()) and "+1" in "".join(q.split()) for q in ins)
     chk.ob("C13.R2", "SQLite numbers a new tick MAX(sequence)+1 inside the INSERT", ok, m=msq, node=at or msq.tree, fn=at, instance="tick-seq:sqlite", reason=f"insert: {ins}")
     mmem = repo.module("llama_agents.server._store.memory_workflow_store")
